@@ -215,7 +215,9 @@ pub fn replay(a: &Args) -> i32 {
                 k => chain.push(adv::honest_cert(&seed_of(k), &cn("n1"))), // a replayed honest certificate
             }
             let cc = adv::client_config(Some((chain, proof)), None);
-            let connecting = ep.connect_with(cc, sim.addr(l), &cn(row["sni"].as_str().unwrap())).map_err(|e| e.to_string())?;
+            // a hello without a server name: rustls sends none when the name dialed is an IP address
+            let sni = match row["sni"].as_str().unwrap() { "none" => "127.0.0.1".to_string(), n => cn(n) };
+            let connecting = ep.connect_with(cc, sim.addr(l), &sni).map_err(|e| e.to_string())?;
             let established = match tokio::time::timeout(std::time::Duration::from_secs(5), async {
                 let conn = connecting.await?;
                 adv::dialer_wait_ack(&conn).await?;
